@@ -117,6 +117,14 @@ def get_match_sites(d):
     return [(bi, b.call_term(bi, t)) for bi, t in b.calls(r'^automaton::get_match$')]
 
 
+def ret_norm(b, v, MAT=None):
+    """`Ok(x)` with x a named intermediate (e.g. the result an outcome enum of a spliced helper carried): what x holds"""
+    if is_agg(v, r'Result$', 'Ok') and isinstance(v[3], dict) and is_var(v[3].get('0')) and v[3]['0'] != MAT:
+        pv = peel_all(expand_vars(b, v[3]['0'], keep=lambda y: y == MAT or (y[0] == 'v' and 1 <= y[2] <= b.j['arg_count'])))
+        return ('agg', v[1], v[2], {'0': pv})
+    return v
+
+
 def mat_slots(d):
     """the published-match slot of the non-overlapping driver: the Option<Match> local carried around the search loop (a local
     of that type that merely names a prefilter verdict before the loop is not the slot)"""
@@ -634,7 +642,7 @@ def r05_6(cx):
                 gb, x, arms, oth = og[0]
                 none_t = arms.get(0, oth)
                 r = b.reach(none_t, cut_blocks=[d.header])
-                vals = [b.rvalue_term(st['r'], 0, y) for y in r for st in b.blocks[y]['stmts'] if st['k'] == 'assign' and st['p']['l'] == 0 and not st['p']['pr']]
+                vals = [ret_norm(b, b.rvalue_term(st['r'], 0, y)) for y in r for st in b.blocks[y]['stmts'] if st['k'] == 'assign' and st['p']['l'] == 0 and not st['p']['pr']]
                 okr = d.header not in r and len(vals) == 1 and is_agg(vals[0], r'Result$', 'Ok') and (is_agg(vals[0][3]['0'], r'Option$', 'None') or is_agg(vals[0][3]['0'], 'tuple'))
             cx.report('R05.6', b, 'in-loop-none', okr, 'no candidate -> the search ends without a further match' if okr else 'a None candidate does not end the search', line_of(b, bi))
 
@@ -900,6 +908,12 @@ def r14_3(cx):
                     t = b.term(blk)
                     if t['k'] == 'switch' and t['discr']['k'] in ('copy', 'move') and t['discr']['p']['l'] == st['p']['l']:
                         continue
+                    # a plain copy into an anonymous single-definition local (the parameter of a spliced helper) is an alias:
+                    # its own uses are looked at through the same term expansion
+                    r0 = st['r']
+                    if (r0.get('k') == 'use' and not st['p']['pr'] and not b.locals[st['p']['l']]['names'] and len(b.defs().get(st['p']['l'], [])) == 1
+                            and b.operand_term(r0['a'], 0, blk) == E):
+                        continue
                     bad.append(blk)
         t = b.term(blk)
         if t['k'] == 'call' and any(s == E for a in t['args'] for s in subterms(b.operand_term(a, 0, blk))):
@@ -910,6 +924,11 @@ def r14_3(cx):
     pub_blocks = {bi for bi, si, x in some}
     ml = mat_slots(d)
     MAT = ('v', b.locals[ml[0]]['names'][0], ml[0]) if ml else None
+    try:
+        from acverif.sym import Sym as _Sym
+        carried = set(_Sym(cx.facts, b).loop_mods(d.header)[0]) if d.header is not None else set(range(len(b.locals)))
+    except Exception:
+        carried = set(range(len(b.locals)))
     for i, (gb, cond, te, fe) in enumerate(eg):
         # true edge: straight to return Ok(mat) with no side effects
         ok = True
@@ -922,11 +941,14 @@ def r14_3(cx):
                     ok = False
                     why = 'a call on the early-return edge'
                 for st in blk['stmts']:
-                    if st['k'] == 'assign' and (st['p']['pr'] or b.locals[st['p']['l']]['names']) and st['p']['l'] != 0:
+                    if st['k'] == 'assign' and (st['p']['pr'] or (b.locals[st['p']['l']]['names'] and st['p']['l'] in carried)) and st['p']['l'] != 0:
                         ok = False
                         why = 'a store on the early-return edge'
                     if st['k'] == 'assign' and st['p']['l'] == 0 and not st['p']['pr']:
                         v = b.rvalue_term(st['r'], 0, y)
+                        if is_agg(v, r'Result$', 'Ok') and is_var(v[3]['0']) and v[3]['0'] != MAT:
+                            pv = peel_all(expand_vars(b, v[3]['0'], keep=lambda yv: yv == MAT or (yv[0] == 'v' and 1 <= yv[2] <= b.j['arg_count'])))
+                            v = ('agg', v[1], v[2], {'0': pv})
                         if not (is_agg(v, r'Result$', 'Ok') and v[3]['0'] == MAT):
                             ok = False
                             why = 'early return yields %s instead of Ok(mat)' % tstr(v, 80)
@@ -970,7 +992,7 @@ def r01_5(cx):
         okidx = ct[2][2] == ('c', 0) and peel(ct[2][0]) == d.aut and (peel(ct[2][1]) == d.sidv or is_var(peel(ct[2][1]), 'sid'))
         cx.report('R01.5', b, 'mat-pos:%s' % ('start' if start else 'loop'), okpos and okidx, 'get_match(aut, sid, 0, %s)' % ('at' if start else 'at + 1') if okpos and okidx else 'match is built as %s' % tstr(ct, 160), line_of(b, bi, si))
     # returns
-    rets = [(bi, b.rvalue_term(st['r'], 0, bi)) for bi, si, pl, st in b.stores() if si != 'term' and pl['l'] == 0 and not pl['pr']]
+    rets = [(bi, ret_norm(b, b.rvalue_term(st['r'], 0, bi), MAT)) for bi, si, pl, st in b.stores() if si != 'term' and pl['l'] == 0 and not pl['pr']]
     kinds = {'mat': 0, 'none': 0, 'prefilter-match': 0, 'other': 0}
     for bi, v in rets:
         if is_agg(v, r'Result$', 'Ok'):
